@@ -549,6 +549,11 @@ def steps_for(p, level="full"):
     return []  # Index / scalars / plain objects: terminal
 
 
+def in_alphabet(prog, pxs, steps):
+    """is every step of prog a member of the alphabet `steps` offers for the pandas object it is applied to?"""
+    return all(step in steps(pxs[i], "full") for i, step in enumerate(prog))
+
+
 def _dedup(seq):
     seen, out = set(), []
     for s in seq:
@@ -579,6 +584,9 @@ def enumerate_programs(root, levels, first_filter=None, counters=None, steps=Non
             except Exception:  # noqa: BLE001  pandas rejects the step
                 counters["inapplicable"] += 1
                 continue
+            if isinstance(nx, pd.DataFrame) and not nx.columns.is_unique:
+                counters["out_of_scope_duplicate_columns"] = counters.get("out_of_scope_duplicate_columns", 0) + 1
+                continue  # duplicate column labels are outside dask's data model (dask.dataframe refuses / mishandles them by design)
             prog = prefix + (step,)
             yield prog, xs + [nx]
             yield from rec(prog, xs + [nx], depth + 1)
